@@ -15,7 +15,8 @@ EXPLANATION = (
     "my_services); (f) announcement record set.  Decides these mechanisms, not bounded-time liveness or wire spacing."
     " (g) Every `false` result of is_probing_done has put the service on the probe's waiting list."
     " (h) Every retain on the rerun queue keeps the commands of other kinds (announcement repeats survive a stop_browse). (i) add_interface writes the status after every announce attempt (a stale Announced cannot cover a registry that probes again)."
-    " (j) DnsRegistry::update_hostname restarts (start_time := probe_time) every probe whose records it rewrites.")
+    " (j) DnsRegistry::update_hostname restarts (start_time := probe_time) every probe whose records it rewrites."
+    " (e') Every write of ServiceStatus::Announced is accompanied, on the same path or by a later loop of the function, by the construction of Command::RegisterResend (no 'one is already pending' shortcut).")
 UNDECIDED = ["'reaches the announced state within a bounded time' (liveness)", "actual spacing of probe packets on the wire",
              "several services sharing a host name (value-level interplay of probes)"]
 
